@@ -733,7 +733,8 @@ example : accepts [[1, 2], [3], [3], []] = true ∧ accepts [[1], [2], [0]] = fa
 --   * underneath: `bounds_contain(_nodes)`, `index_in_range`, `prove_sound`,
 --     `facts_hold_F1`, `facts_hold_store`, and C02's `statement_preserves` / `reach_sound`.
 -- The Flow fragment: integer scalars (refined) and bool as locals / arguments / fields,
--- fixed arrays of scalars, all unary / binary / associative operators, `as`, assignment
+-- fixed arrays of scalars, all unary / binary / associative operators, the numeric
+-- built-in methods `min` / `max` / `low_bits` / `high_bits`, `as`, assignment
 -- and op-assignment to variables and array elements, `assert` (plain and `via` any listed
 -- axiom), if / else-if / else, `while` with pre / inv / post, `break` / `continue` of any
 -- enclosing loop, `return`, impure calls with scalar arguments, `x = this.m!(…)`, `yield?`,
@@ -747,17 +748,20 @@ example : accepts [[1, 2], [3], [3], []] = true ∧ accepts [[1], [2], [0]] = fa
 --   * I/O: `io_reader` / `io_writer` / `token_writer` methods, their `length() >= n`
 --     pre-conditions (`ioMethodAdvances`: only the TABLE is covered, `io_advance_table`),
 --     `optimizeIOMethodAdvance`, `io_bind` / `io_limit`;
---   * `via` reasons beyond the modelled generic reason procedure: the hand-written
---     special reasons (`"a < b: a < c; c <= b"` chains over slice lengths,
---     `proveReasonRequirementForRHSLength` on slices);
+--   * `via` reasons whose operands lie outside the expression fragment (slice lengths:
+--     `proveReasonRequirementForRHSLength` on slices); the generic reason procedure
+--     itself, for every listed axiom, is in the model (C02: `reason_impl_sound`);
 --   * `iterate` loops, `choose`, `=?` assignments, status values;
 --   * pointers: `nptr` types, the `<> nullptr` facts of `proveRecvNotEqNullptr`;
 --   * calls INSIDE expressions (pure methods `this.get()`, their facts), by-reference
 --     (slice / table) arguments of impure calls;
---   * the numeric built-ins `min` / `max` / `low_bits` / `high_bits` (interpreter + C only),
---     SIMD built-ins, `copy_from_history_fast` and friends;
+--   * SIMD built-ins, `copy_from_history_fast` and friends (the numeric built-ins `min` /
+--     `max` / `low_bits` / `high_bits` ARE in the model: operators `bmin` … `highbits`);
 --   * struct cycles (`checkStructCycles`), package-level consts beyond typed constants.
--- The tie between `wtS` and lang/check/type.go is by differential execution (`case flow`
+--   * constant conditions (`while true`, constant-folded comparisons): `checkS` handles
+--     them, but C02's `wtS` demands a boolean-typed condition node, so such functions do
+--     not satisfy the hypotheses of the theorems above.
+-- The tie between `wtS` and lang/check/type.go is by differential execution (`case func`
 -- ops: `wfMethod` is evaluated on every sampled body), not proved.
 -/
 
